@@ -35,11 +35,20 @@ def has_star_slash(d):
     return False
 
 
+# patterns that are not in normal POSIX form: python-debian takes them literally, and since reuse asks with normalised
+# root-relative paths they match (next to) nothing -- they must match exactly as little after the conversion
+ODD = ["./vendor/*", "./*", "./", ".", "./a.txt", "a//b", "a//*", "src//*.c", "a/./b", "docs/./*", "docs/", "docs/img/", "a/b/",
+       "*/", "vendor/*/", "/a.txt", "/*", "../a.txt", "a/../b", "docs/../*", "./docs/../a.txt", ".//a.txt", "a/b/.", "a/.", "docs//",
+       "//", "./.", "vendor/./lib.c", "./vendor/deep/*.c", "././a.txt"]
+
+
 class Dep5GlobStream(Stream):
     name = "dep5glob"
     exhaustive = True
     rule = ("every dep5 glob of length <=N over {a . / * ? \\} (quick N=4, thorough N=5) against every path of length <=N "
-            "over the same alphabet: python-debian's matcher vs the REUSE.toml matcher of the converted glob; "
+            "over the same alphabet, plus %d longer patterns that are not in normal POSIX form (leading ./, doubled slash, /./, trailing "
+            "slash, leading /, ..) against 69 paths: python-debian's matcher vs the REUSE.toml matcher of the converted glob, where "
+            "'converted' is the real pipeline (a one-paragraph dep5 document through toml_from_dep5, the REUSE.toml read back); " % len(ODD) +
             "non-trivial = valid glob whose row has a match and a non-match")
     A = "a./*?\\"
 
@@ -47,7 +56,7 @@ class Dep5GlobStream(Stream):
         n = 5 if tier == "thorough" else 4
         for d in words(self.A, n):
             yield {"d": d, "P": n}
-        for d in ["\\*.md", "\\**", "a?.txt", "*/foo", "**/foo", "docs/*", "\\\\*", "*\\?"]:
+        for d in ["\\*.md", "\\**", "a?.txt", "*/foo", "**/foo", "docs/*", "\\\\*", "*\\?"] + ODD:
             yield {"d": d, "P": 0}
 
     _paths = {}
@@ -55,8 +64,31 @@ class Dep5GlobStream(Stream):
     def paths(self, n):
         if n not in self._paths:
             self._paths[n] = (["*.md", "x.md", "*x.md", "*", "**", "ab.txt", "a?.txt", "foo", "x/foo", "a/b/foo", "docs/a", "docs/a/b",
-                              "\\", "\\x", "\\*", "?", "*?"] if n == 0 else list(words(self.A, n)))
+                              "\\", "\\x", "\\*", "?", "*?",
+                              "a.txt", "./a.txt", "vendor/lib.c", "vendor/deep/util.c", "./vendor/lib.c", "a/b", "a//b", "a/./b", "a/x",
+                              "a//x", "src/m.c", "src//m.c", "docs", "docs/", "docs/img", "docs/img/", "docs/img/y.png", "docs/./a",
+                              "/a.txt", "../a.txt", "a/../b", "b", "vendor/x/", "vendor/x", ".", "./", "", "/", "//", "a/b/", "a/b/.",
+                              "a/.", "a", "x/", "x"] if n == 0 else list(words(self.A, n)))
         return self._paths[n]
+
+    def convert(self, d):
+        """The converted glob as the real pipeline produces it: a dep5 document with one Files paragraph holding `d` goes through
+        toml_from_dep5, the resulting REUSE.toml is read back, and its (only) path is the answer -- so every step between the dep5
+        pattern and the REUSE.toml pattern takes part, not only the asterisk rewriting."""
+        from debian.copyright import Copyright
+        from reuse.convert_dep5 import toml_from_dep5, _convert_asterisk
+        from reuse.global_licensing import ReuseTOML, AnnotationsItem
+
+        if d == "":
+            # the empty pattern cannot be written into a Files field (no dep5 file holds it): the asterisk rewriting alone
+            return AnnotationsItem(paths=[_convert_asterisk(d)])
+        doc = Copyright(DEP5_HEAD + "\nFiles: %s\nCopyright: 2020 Jane Doe\nLicense: MIT\n" % d)
+        paras = list(doc.all_files_paragraphs())
+        if len(paras) != 1 or tuple(paras[0].files) != (d,):
+            raise RuntimeError("generator precondition: dep5 reads Files %r back as %r" % (d, [p.files for p in paras]))
+        toml = ReuseTOML.from_toml(toml_from_dep5(doc), "REUSE.toml")
+        (item,) = toml.annotations
+        return item
 
     _encp = {}
 
@@ -67,8 +99,6 @@ class Dep5GlobStream(Stream):
 
     def impl(self, case):
         from debian.copyright import globs_to_re, MachineReadableFormatError
-        from reuse.convert_dep5 import _convert_asterisk
-        from reuse.global_licensing import AnnotationsItem
 
         d = case["d"]
         ps = self.paths(case["P"])
@@ -77,8 +107,8 @@ class Dep5GlobStream(Stream):
         except MachineReadableFormatError:
             return "invalid"
         a = "".join("1" if pat.fullmatch(p) else "0" for p in ps)
-        conv = _convert_asterisk(d)
-        item = AnnotationsItem(paths=[conv])
+        item = self.convert(d)
+        (conv,) = sorted(item.paths)
         b = "".join("1" if item.matches(p) else "0" for p in ps)
         return "A:%s|B:%s|conv:%s" % (a, b, enc(conv))
 
@@ -145,7 +175,7 @@ DEP5_HEAD = "Format: https://www.debian.org/doc/packaging-manuals/copyright-form
 
 class FileStream(Stream):
     name = "file"
-    rule = ("generated .reuse/dep5 files (1-4 Files paragraphs, 1-3 patterns each from a plain-glob grammar, multi-line "
+    rule = ("generated .reuse/dep5 files (1-4 Files paragraphs, 1-3 patterns each from a plain-glob grammar, a third of the paragraphs with a pattern that is not in normal POSIX form -- ./x, x//y, x/./y, x/, /x, x/../y: dead under dep5 --, multi-line "
             "copyright, comments; 40 % with a later paragraph repeating the copyright / licence of an earlier one around a different one, plus "
             "the nested ours / theirs / ours shapes) over a fixed tree of 14 files, some with own headers: `reuse lint --json` before and "
             "after `reuse convert-dep5` compared modulo the source name; order of write/unlink observed; refusal without dep5; "
@@ -155,6 +185,9 @@ class FileStream(Stream):
             "docs/img/z.png", "data/1.json", "data/sub/2.json", "README", "q?.txt"]
     GLOBS = ["*", "*.md", "src/*", "src/*.c", "src/lib/*", "docs/*", "docs/img/*.png", "data/*.json", "README", "a.txt", "\\*.md",
              "*.c", "src/**", "data/sub/2.json", "*.json", "q\\?.txt", "d*", "*/img/*" , "s*c/*.h", "**.png"]
+    # not in normal POSIX form: dead under dep5 (reuse asks with normalised root-relative paths), must stay dead after the conversion
+    ODD_GLOBS = ["./src/*", "./*", "./README", "./docs/*.md", "src//*.c", "src//lib/*", "docs/./*", "data/./sub/2.json", "docs/", "docs/img/",
+                 "src/lib/", "/a.txt", "src/../a.txt", "././*.md", "data//*.json", "README/", "src/./lib/d.h"]
     LIC = ["MIT", "0BSD", "GPL-3.0-or-later", "Apache-2.0 OR MIT", "CC0-1.0"]
 
     def cases(self, tier, rng):
@@ -163,6 +196,10 @@ class FileStream(Stream):
             paras = []
             for _ in range(rng.randint(1, 4)):
                 gs = rng.sample(self.GLOBS, rng.randint(1, 3))
+                if rng.random() < 0.35:
+                    gs[rng.randrange(len(gs))] = rng.choice(self.ODD_GLOBS)
+                    if rng.random() < 0.3:
+                        gs = [rng.choice(self.ODD_GLOBS)]   # a paragraph that is dead as a whole
                 cp = ["%d Holder %d" % (rng.randint(1990, 2024), rng.randint(1, 9)) for _ in range(rng.randint(1, 3))]
                 paras.append({"g": gs, "c": cp, "l": rng.choice(self.LIC), "comment": rng.random() < 0.3})
             if len(paras) >= 2 and rng.random() < 0.4:
@@ -178,6 +215,10 @@ class FileStream(Stream):
         for g1, g2, g3 in (("*", "src/*", "src/lib/*"), ("*", "docs/*", "docs/img/*.png"), ("*.json", "data/*.json", "data/sub/2.json")):
             yield {"paras": [dict(us, g=[g1]), dict(them, g=[g2]), dict(us, g=[g3])], "own": []}
             yield {"paras": [dict(us, g=[g1]), dict(them, g=[g2]), dict(them, g=["README"]), dict(us, g=[g3, "a.txt"])], "own": ["src/a.c"]}
+        # ours, then a paragraph of theirs whose patterns are not in normal form (dead): everything stays ours
+        for odd in (["./src/*"], ["src//*.c", "docs/"], ["./*"], ["docs/./*", "./README", "data/./sub/2.json"], ["src/lib/", "/a.txt"]):
+            yield {"paras": [dict(us, g=["*"]), dict(them, g=odd)], "own": []}
+            yield {"paras": [dict(us, g=["*"]), dict(them, g=odd + ["docs/img/*.png"]), dict(us, g=["*.md"])], "own": ["README"]}
         yield {"paras": None, "own": []}  # no dep5 file: must refuse
 
     def dep5_text(self, paras):
@@ -239,9 +280,18 @@ class FileStream(Stream):
                 return res, rep["summary"]["compliant"], sorted(rep["non_compliant"]["missing_licenses"]), sorted(rep["non_compliant"]["unused_licenses"])
 
             same = norm(before) == norm(after)
+            detail = ""
+            if not same and before is not None and after is not None:
+                nb, na = norm(before), norm(after)
+                for path in sorted(set(nb[0]) | set(na[0])):
+                    if nb[0].get(path) != na[0].get(path):
+                        detail = "%s: %s -> %s" % (path, json.dumps(nb[0].get(path)), json.dumps(na[0].get(path)))
+                        break
+                else:
+                    detail = "summary: %s -> %s" % (json.dumps(nb[1:]), json.dumps(na[1:]))
             attributed = len({json.dumps(v[0]) for v in (norm(after)[0].values() if after else [])})
             return json.dumps({"exit": code, "log": log, "dep5": has_dep5, "toml": has_toml, "same": same,
-                               "lint_exit": [code0, code1], "distinct": attributed}, sort_keys=True)
+                               "lint_exit": [code0, code1], "distinct": attributed, **({"detail": detail[:400]} if detail else {})}, sort_keys=True)
 
     def oracle(self, case, impl_out):
         if impl_out.startswith("EXC"):
@@ -258,7 +308,7 @@ class FileStream(Stream):
         if r["log"] != ["write:REUSE.toml", "unlink:dep5:toml-exists"]:
             return "convert-order: %s" % r["log"]
         if not r["same"]:
-            return "convert-changes-lint: lint --json differs before/after conversion (modulo source name)"
+            return "convert-changes-lint: lint --json differs before/after conversion (modulo source name): " + r.get("detail", "")
         return None
 
     def classify(self, case, failure):
